@@ -47,14 +47,17 @@ def check_io(conf, G, nodes, times, P, PP, combo, serial):
         bad('write-raises', {'exc': repr(ex)[:200]}, exc=type(ex).__name__)
         return res, 1
     raw = iocommon.raw_bytes(path, target)
+    # the writers encode line by line (a signature codec such as utf-8-sig therefore marks every line) and the readers
+    # decode line by line: the file is decoded the same way
     try:
-        text = raw.decode(enc)
+        parts = raw.split(b'\n')
+        rows = [ln.decode(enc) for ln in parts[:-1]]
+        tail = parts[-1]
     except Exception:
         bad('not-in-requested-encoding', {'bytes': repr(raw[:80])})
         return res, 1
-    if text and not text.endswith('\n'):
-        bad('last-line-not-terminated', {'tail': repr(text[-30:])})
-    rows = text.split('\n')[:-1] if text else []
+    if raw and tail != b'':
+        bad('last-line-not-terminated', {'tail': repr(raw[-30:])})
     got = collections.Counter()
     shape_bad = False
     for r in rows:
@@ -89,17 +92,18 @@ def check_io(conf, G, nodes, times, P, PP, combo, serial):
             bad('rows-differ-from-presence', {'missing': repr(missing[:5]), 'extra': repr(extra[:5]), 'rows': len(rows)}, **feat)
     # read back
     nt = nodetype_of(conf)
+    ckw = {'comments': U.FLAVOURS[conf['flavour']]['comments']} if 'comments' in U.FLAVOURS[conf['flavour']] else {}
     for how in ('path', 'fileobj'):
         try:
             if how == 'path':
                 if target == 'fileobj':
                     continue
-                H = dn.read_snapshots(path, directed=directed, nodetype=nt, timestamptype=int, delimiter=d, encoding=enc)
+                H = dn.read_snapshots(path, directed=directed, nodetype=nt, timestamptype=int, delimiter=d, encoding=enc, **ckw)
             else:
                 if target not in ('plain', 'fileobj'):
                     continue
                 with open(path, 'rb') as f:
-                    H = dn.read_snapshots(f, directed=directed, nodetype=nt, timestamptype=int, delimiter=d, encoding=enc)
+                    H = dn.read_snapshots(f, directed=directed, nodetype=nt, timestamptype=int, delimiter=d, encoding=enc, **ckw)
         except Exception as ex:
             bad('read-raises', {'exc': repr(ex)[:200], 'how': how}, exc=type(ex).__name__)
             continue
@@ -114,18 +118,25 @@ def check_io(conf, G, nodes, times, P, PP, combo, serial):
                 missing=bool(P - PH), extra=bool(PH - P))
         for sub, sig, det in oracles.canonical(H, conf, what='read_snapshots'):
             bad('read-back-' + sig['kind'], det)
+        if how == 'path' and target == 'plain' and not ckw:
+            try:
+                H2 = dn.read_snapshots(path, directed=directed, nodetype=nt, timestamptype=int, delimiter=d, encoding=enc, comments='//')
+                if observe.presence(H2, hn, ht) != PH:
+                    bad('custom-comment-marker-changes-graph', {'comments': '//'})
+            except Exception as ex:
+                bad('custom-comment-marker-raises', {'comments': '//', 'exc': repr(ex)[:200]}, exc=type(ex).__name__)
     # the same text read with the other id type, in the same process: int ids read as strings (and, for digit-free string
     # ids, nothing to cross) -- a reader must not remember conversions of an earlier call
     if nt is int and target == 'plain':
         try:
-            H2 = dn.read_snapshots(path, directed=directed, nodetype=str, timestamptype=int, delimiter=d, encoding=enc)
+            H2 = dn.read_snapshots(path, directed=directed, nodetype=str, timestamptype=int, delimiter=d, encoding=enc, **ckw)
             want2 = set((str(u), str(v), t) for (u, v, t) in P)
             hn2 = [str(n) for n in nodes]
             got2 = observe.presence(H2, hn2, sorted(times))
             if got2 != want2 or any(not isinstance(n, str) for n in H2.nodes()):
                 bad('read-with-other-nodetype-differs', {'node types': sorted(set(type(n).__name__ for n in H2.nodes())),
                                                         'missing': repr(sorted(want2 - got2)[:4]), 'extra': repr(sorted(got2 - want2)[:4])})
-            H3 = dn.read_snapshots(path, directed=directed, nodetype=int, timestamptype=int, delimiter=d, encoding=enc)
+            H3 = dn.read_snapshots(path, directed=directed, nodetype=int, timestamptype=int, delimiter=d, encoding=enc, **ckw)
             if any(not isinstance(n, int) for n in H3.nodes()) or observe.presence(H3, list(nodes), sorted(times)) != P:
                 bad('read-after-other-nodetype-differs', {'node types': sorted(set(type(n).__name__ for n in H3.nodes()))})
         except Exception as ex:
